@@ -866,13 +866,18 @@ class OptionalSerializer(Generic[T, T_NP], TypeSerializer[Optional[T], np.void])
     def __init__(self, element_serializer: TypeSerializer[T, T_NP]) -> None:
         super().__init__(
             np.dtype(
-                [("has_value", np.bool_), ("value", element_serializer.overall_dtype())]
+                [("has_value", np.bool_), ("value", element_serializer.overall_dtype())],
+                align=True,
             )
         )
         self._element_serializer = element_serializer
         self._none = cast(np.void, np.zeros((), dtype=self.overall_dtype())[()])
 
     def write(self, stream: CodedOutputStream, value: Optional[T]) -> None:
+        if isinstance(value, np.void) and value.dtype == self.overall_dtype():
+            # the field of an element of a structured array holds (has_value, value)
+            self.write_numpy(stream, value)
+            return
         stream.ensure_capacity(1)
         if value is None:
             stream.write_byte_no_check(0)
@@ -1349,18 +1354,27 @@ class RecordSerializer(TypeSerializer[T, np.void]):
 
     def read_numpy(self, stream: CodedInputStream) -> np.void:
         # The result becomes an element of a structured array, whose fields hold
-        # the underlying integer of an enum and NumPy time values
+        # the underlying integer of an enum, NumPy time values and (has_value, value)
+        # for an optional
         return cast(
             np.void,
             tuple(
                 (
-                    v.value
-                    if isinstance(v, Enum)
-                    else v.numpy_value if isinstance(v, (Time, DateTime)) else v
+                    serializer.read_numpy(stream)
+                    if isinstance(serializer, OptionalSerializer)
+                    else self._numpy_field_value(serializer.read(stream))
                 )
-                for v in self._read(stream)
+                for _, serializer in self._field_serializers
             ),
         )
+
+    @staticmethod
+    def _numpy_field_value(v: Any) -> Any:
+        if isinstance(v, Enum):
+            return v.value
+        if isinstance(v, (Time, DateTime)):
+            return v.numpy_value
+        return v
 
 
 # Only used in the header
